@@ -1,6 +1,8 @@
 import PasetoModel.Conc
 import PasetoModel.Ffi
 import PasetoModel.Asym
+import PasetoModel.Extracted.Ffi
+import PasetoModel.Extracted.Source
 /-! # C17 — shared keys under concurrency and after failures
 (Partial: data races inside aws-lc / libsodium and the soundness of `unsafe impl Send/Sync` cannot
 be exhibited by a Lean model; the model shows that the Rust side holds no shared mutable state,
@@ -89,6 +91,38 @@ theorem after_failures_same {K α} (key : K) (history : List (Op K (Res α))) (o
     path of `clone` / construction is balanced (from C04's exhaustive path check), so each object is
     freed exactly once by its unique owner whatever the interleaving of clone and drop -/
 theorem clone_paths_balanced : Ffi.signingKeyClone.ok = true ∧ Ffi.verifyingKeyClone.ok = true := by decide
+
+/-! ### the model's premise, re-read from the current source (`tools/srcscan.py`, `tools/ffiscan.py`)
+
+`Op K O := K → O` says an operation is a function of the shared key (and of its own arguments and randomness).  In
+safe Rust, state reachable through `&Key` can change, and state can outlive a call, only through `UnsafeCell` and the
+types built on it, a `static`, a thread local, or `unsafe` code. -/
+
+/-- the library crates contain no interior mutability, `static mut`, thread local, lazily initialised global, lock or
+    atomic: there is nothing through which two uses of a key could influence each other on the Rust side -/
+theorem no_shared_mutable_state : Extracted.Source.sharedState = [] := by decide
+
+/-- every library crate forbids or denies `unsafe_code` at crate level, it is re-allowed only in `base64.rs` and
+    `lc/mod.rs`, and the keyword occurs only in those and in `lc/ptr.rs` (whose ownership discipline is C04's) -/
+theorem unsafe_confined :
+    Extracted.Source.unsafePolicy.all (fun p => p.2 == "forbid" || p.2 == "deny") = true ∧
+    Extracted.Source.crates.length = Extracted.Source.unsafePolicy.length ∧ 8 ≤ Extracted.Source.crates.length ∧
+    Extracted.Source.unsafeAllowed.all (fun f => ["paseto-core/src/base64.rs", "paseto-v3-aws-lc/src/lc/mod.rs"].contains f) = true ∧
+    Extracted.Source.unsafeFiles.all (fun f => ["paseto-core/src/base64.rs", "paseto-v3-aws-lc/src/lc/mod.rs",
+      "paseto-v3-aws-lc/src/lc/ptr.rs"].contains f.1) = true := by decide
+
+/-- the only `unsafe impl`s are `Send` / `Sync` for the two aws-lc key wrappers, each of which holds exactly one owned
+    `EC_KEY`; and no function writes through, or releases, an aws-lc object it holds only by shared reference
+    (`&self`, `&VerifyingKey`, `&Signature`, `ConstPointer`), so sharing a key across threads only ever *reads* it -/
+theorem send_sync_keys_are_read_only :
+    Extracted.Ffi.unsafeImpls = [("Send", "SigningKey"), ("Send", "VerifyingKey"), ("Sync", "SigningKey"), ("Sync", "VerifyingKey")] ∧
+    Extracted.Ffi.structs = [("SigningKey", ["LcPtr<EC_KEY>"]), ("Signature", ["LcPtr<ECDSA_SIG>"]), ("VerifyingKey", ["LcPtr<EC_KEY>"])] ∧
+    Extracted.Ffi.sharedMutations = [] := by decide
+
+/-- clone / construction paths of the *current* source are balanced (C04's exhaustive path check on the translated lists) -/
+theorem extracted_clone_paths_balanced :
+    (Extracted.Ffi.fns.filter (fun f => f.name == "<SigningKey as Clone>::clone" || f.name == "<VerifyingKey as Clone>::clone")).length = 2 ∧
+    (Extracted.Ffi.fns.filter (fun f => f.name == "<SigningKey as Clone>::clone" || f.name == "<VerifyingKey as Clone>::clone")).all Ffi.Fn.ok = true := by decide
 
 /-! non-vacuity: two threads, three operations, an arbitrary interleaving -/
 example : ((run (init (5 : Nat) [[(· + 1), (· * 2)], [(· + 10)]]) [1, 0, 0]).outputs) = [[6, 10], [15]] := by decide
